@@ -22,6 +22,7 @@ import (
 	"math"
 	"math/big"
 	"math/rand"
+	"runtime"
 	"strings"
 	"time"
 
@@ -95,8 +96,8 @@ func (o optsJ) coq() string {
 	return fmt.Sprintf("(Build_opts %s %s %s %s %s)", vh.Z(o.Init), vh.Z(o.Max), qOf(o.Mult), vh.Z(int64(o.MaxRetries)), qOf(o.RF))
 }
 
-var mults = []float64{0, 1, 1.5, 2, 2.5, 3, 1.25, 1.1, 0.5, 4}
-var rfs = []float64{0, 0.125, 0.25, 0.5, 1, 0.1, 0.15, 0.75}
+var mults = []float64{0, 1, 1.5, 2, 2.5, 3, 1.25, 1.1, 0.5, 4, 0.25, 0.75}
+var rfs = []float64{0, 0.125, 0.25, 0.5, 1, 0.1, 0.15, 0.75, 1.5, 2, 5}
 
 func genOptsAny(rng *rand.Rand) optsJ {
 	var o optsJ
@@ -504,6 +505,68 @@ func genLoop(rng *rand.Rand, class string, seed int64) loopCase {
 	return c
 }
 
+// genStopLoop: loops whose computed back-off is zero or negative — a
+// Multiplier below 1 decayed under 1 ns ("decay"), or a RandomizationFactor
+// of 1 and more that puts part of the band below zero ("wide") — are told to
+// stop and then asked for many more attempts.  The caller pins GOMAXPROCS(1)
+// around these loops: an already due timer is then fired only when the
+// goroutine inside Next yields, i.e. after the select has seen the closed
+// closer / cancelled context, so the real select is deterministic here (with
+// several Ps another P may fire it first, about 3 times in 10^4 calls).
+func genStopLoop(rng *rand.Rand, class string, seed int64) loopCase {
+	var o optsJ
+	warm := 1 + rng.Intn(3)
+	if class == "decay" {
+		o = optsJ{Init: 500 + rng.Int63n(1500), Max: 1000000000, Mult: []float64{0.5, 0.25, 0.75}[rng.Intn(3)], RF: []float64{0, 0.25, 0.5}[rng.Intn(3)]}
+		b := float64(o.Init)
+		for warm = 1; b >= 0.01; warm++ {
+			b *= o.Mult
+		}
+		warm += rng.Intn(4)
+	} else {
+		o = optsJ{Init: 200000 + rng.Int63n(800000), Mult: 1, RF: []float64{1, 1.5, 2, 5}[rng.Intn(4)]}
+		o.Max = o.Init
+	}
+	c := loopCase{Opts: o, Class: class}
+	lr := newLoopRunner(o, false, false, seed)
+	defer lr.cancel()
+	do := func(op loopOp) bool {
+		ok := true
+		switch op.Op {
+		case "next":
+			ok = lr.next(&op)
+		case "reset":
+			lr.r.Reset()
+			op.Cur, op.IsReset = lr.r.VerifCurrentAttempt(), lr.r.VerifIsReset()
+		case "stop":
+			lr.doStop(op.Stopper)
+			op.Cur, op.IsReset = lr.r.VerifCurrentAttempt(), lr.r.VerifIsReset()
+		}
+		c.Ops = append(c.Ops, op)
+		return ok
+	}
+	for i := 0; i < warm; i++ {
+		if !do(loopOp{Op: "next"}) {
+			return c
+		}
+	}
+	do(loopOp{Op: "stop", Stopper: []string{"closer", "ctx"}[rng.Intn(2)]})
+	for i := 0; i < 40; i++ {
+		if !do(loopOp{Op: "next"}) {
+			return c
+		}
+	}
+	if rng.Intn(2) == 0 {
+		do(loopOp{Op: "reset"}) // told to stop: Reset must not bring the loop back
+		for i := 0; i < 5; i++ {
+			if !do(loopOp{Op: "next"}) {
+				return c
+			}
+		}
+	}
+	return c
+}
+
 // fixed shapes that must always be present
 func corpusLoops(seed int64) []loopCase {
 	long := optsJ{Init: 3600000000000, Max: 3600000000000, Mult: 2, RF: 0.25}
@@ -807,6 +870,17 @@ func main() {
 		wmas = append(wmas, genWMA(rng))
 	}
 
+	// loops with zero / negative back-offs told to stop (see genStopLoop)
+	nstop := 12
+	if thorough {
+		nstop = 150
+	}
+	prevProcs := runtime.GOMAXPROCS(1)
+	for i := 0; i < 2*nstop; i++ {
+		loops = append(loops, genStopLoop(rng, []string{"decay", "wide"}[i%2], rng.Int63n(1<<40)))
+	}
+	runtime.GOMAXPROCS(prevProcs)
+
 	// ---- write
 	var sb strings.Builder
 	var items []string
@@ -836,7 +910,7 @@ func main() {
 			nontriv[fmt.Sprintf("ri%v/%d/%v", c.Opts, c.K, c.Reset)] = true
 		}
 	}
-	waits, stops, hangN, asyncs, knownShape := 0, 0, 0, 0, 0
+	waits, stops, hangN, asyncs, knownShape, lateAttempts := 0, 0, 0, 0, 0, 0
 	classes := map[string]int{}
 	for _, c := range loops {
 		classes[c.Class]++
@@ -858,6 +932,9 @@ func main() {
 			}
 			if op.Op == "next" && fresh && stoppedSync && op.Res {
 				knownShape++
+			}
+			if op.Op == "next" && !fresh && stoppedSync && op.Res {
+				lateAttempts++
 			}
 			switch op.Op {
 			case "stop":
@@ -908,7 +985,7 @@ func main() {
 		"ri": len(ris), "ri_samples": samples, "option_sets": nsets, "loop": len(loops), "wma": len(wmas),
 		"draws_known":  drawsKnown,
 		"loop_classes": classes, "loop_waited_attempts": waits, "loop_stops": stops, "loop_async_stops": asyncs,
-		"loop_hangs": hangN, "hangs_total": hangs, "loop_known_shape": knownShape, "wma_kinds": wmaKinds,
+		"loop_attempts_after_stop": lateAttempts, "loop_hangs": hangN, "hangs_total": hangs, "loop_known_shape": knownShape, "wma_kinds": wmaKinds,
 		"distinct_nontrivial": len(nontriv),
 		"samples":             []interface{}{trim(ris[0]), trim(ris[len(ris)-1]), loops[0], loops[len(loops)-1], wmas[0], wmas[len(wmas)-1]},
 	})
